@@ -717,10 +717,14 @@ pub const SPAN_BODIES: [(&str, &str); 34] = [
 
 const SPAN_QUOTES: [(&str, &str, &str); 4] = [("dq", "\"", "\""), ("sq", "'", "'"), ("vdq", "@\"", "\""), ("vsq", "@'", "'")];
 
-/// `/* … */` comments: line breaks, tabs, differing indentation, gutters
-pub const SPAN_COMMENTS: [(&str, &str); 26] = [
+/// `/* … */` comments: line breaks, tabs, differing indentation, gutters, stars next to the
+/// delimiters, comments without text, very long lines
+pub const SPAN_COMMENTS: [(&str, &str); 69] = [
 	("one-line-tab", "/* a\tb */"),
 	("one-line-leading-tab", "/*\ta */"),
+	("one-line-glued", "/*a*/"),
+	("one-line-blanks", "/*   a   */"),
+	("one-line-star-text", "/* * a */"),
 	("two-lines", "/* a\n   b */"),
 	("two-lines-tab-first", "/* a\tb\n   c */"),
 	("two-lines-tab-second", "/* a\n\tb\tc */"),
@@ -733,19 +737,91 @@ pub const SPAN_COMMENTS: [(&str, &str); 26] = [
 	("own-lines-blank", "/*\n  a\n\n  b\n*/"),
 	("own-lines-ws-only", "/*\n  a\n   \t\n  b\n*/"),
 	("own-lines-trailing-ws", "/*\n  a  \n  b\t\n*/"),
+	("own-lines-one-text-line", "/*\n  a\n*/"),
+	("own-lines-blank-first-and-last", "/*\n\n  a\n  b\n\n*/"),
 	("closing-indented", "/*\n  a\n  */"),
 	("closing-tab-indented", "/*\n\ta\n\t*/"),
+	("closing-glued", "/*\n  a\n  b*/"),
 	("gutter", "/*\n * a\n * b\n */"),
 	("gutter-tab", "/*\n *\ta\n *\t\tb\n */"),
+	("gutter-deeper", "/*\n * a\n *   b\n */"),
+	("gutter-glued-text", "/*\n *a\n *b\n */"),
+	("gutter-not-on-every-line", "/*\n * a\n   b\n */"),
+	("gutter-twice", "/*\n * * a\n * * b\n */"),
+	("gutter-bullets", "/*\n  * a\n  * b\n*/"),
+	("gutter-first-line-text", "/* a\n * b\n */"),
+	("gutter-first-line-star-text", "/* * a\n * b\n */"),
+	("gutter-only-lines", "/*\n *\n *\n */"),
+	("gutter-empty-first-and-last", "/*\n *\n * a\n *\n */"),
 	("doc", "/** a\n * b\n */"),
 	("doc-tab", "/**\n *\ta\n * b\tc\n */"),
 	("doc-tab-lines", "/**\n\ta\n\t\tb\n*/"),
+	("doc-tab-after-blank", "/**\n * \ta\n * b\n */"),
+	("doc-one-line", "/** a */"),
+	("doc-one-line-blanks", "/**   a\t*/"),
+	("doc-one-line-star-text", "/** * a */"),
+	("doc-one-text-line", "/**\n * a\n */"),
+	("doc-no-gutter", "/**\n  a\n  b\n*/"),
+	("doc-deeper", "/**\n * a\n *     b\n *\tc\n */"),
+	("doc-closing-stars", "/**\n * a\n **/"),
 	("crlf", "/* a\r\n   b\r\n */"),
-	// run only when `comment_exclusion` says the formatter settles on them (today: skipped, counted)
+	("crlf-gutter", "/**\r\n * a\r\n *\r\n * b\r\n */"),
+	("cr-inside", "/* a\rb */"),
+	// formerly excluded: the unchanged formatter did not settle on them / dropped them
 	("doc-empty-gutter-line", "/**\n * a\n *\n * b\n */"),
 	("gutter-empty-gutter-line", "/*\n * a\n *\n * b\n */"),
 	("immediate-then-blank-line", "/*  a\n\n  b*/"),
 	("no-text", "/*\n\t\n*/"),
+	("no-text-glued", "/**/"),
+	("no-text-blank", "/* */"),
+	("no-text-blanks-tab", "/*  \t */"),
+	("no-text-lines", "/*\n\n\n*/"),
+	("no-text-crlf", "/*\r\n*/"),
+	("no-text-doc", "/**  \t\r\n */"),
+	("no-text-doc-glued", "/***/"),
+	("no-text-doc-stars", "/** **/"),
+	("no-text-doc-many-stars", "/*****/"),
+	// nested-looking text, stars next to the delimiters, lines of stars
+	("nested-looking", "/* a /* b */"),
+	("nested-looking-lines", "/*\n  /* a\n  // b\n  # c\n*/"),
+	("stars-closing", "/* a **/"),
+	("stars-both", "/*** a ***/"),
+	("stars-banner", "/*****\n * a *\n *****/"),
+	("stars-only-lines", "/*\n  ****\n  a\n  ****\n*/"),
+	("star-only-line", "/*\n  a\n  *\n  b\n*/"),
+	// wider than the line width of the formatter (100 columns)
+	("long-one-line", "/* lorem ipsum dolor sit amet consectetur adipiscing elit sed do eiusmod tempor incididunt ut labore et dolore magna */"),
+	("long-lines", "/*\n * lorem ipsum dolor sit amet consectetur adipiscing elit sed do eiusmod tempor incididunt ut labore et dolore magna\n *\n * aliqua_ut_enim_ad_minim_veniam_quis_nostrud_exercitation_ullamco_laboris_nisi_ut_aliquip_ex_ea_commodo_consequat_duis\n */"),
+];
+
+/// `//` and `#` comments (without the line end): trailing blanks and tabs, no text, markers in the text
+pub const SPAN_LINE_COMMENTS: [(&str, &str); 26] = [
+	("slash", "// a"),
+	("slash-glued", "//a"),
+	("slash-trailing-blanks", "// a   "),
+	("slash-trailing-tab", "// a\t"),
+	("slash-trailing-mixed", "// a \t \t"),
+	("slash-leading-tab", "//\ta"),
+	("slash-leading-blanks", "//     a"),
+	("slash-inner-tab", "// a\tb\t\tc"),
+	("slash-no-text", "//"),
+	("slash-blank-only", "//   "),
+	("slash-tab-only", "//\t"),
+	("slash-many", "//// a"),
+	("slash-markers-inside", "// a /* b */ # c // d"),
+	("slash-cr", "// a\r"),
+	("slash-long", "// lorem ipsum dolor sit amet consectetur adipiscing elit sed do eiusmod tempor incididunt ut labore et dolore magna"),
+	("hash", "# a"),
+	("hash-glued", "#a"),
+	("hash-trailing-blanks", "# a   "),
+	("hash-trailing-tab", "# a\t"),
+	("hash-leading-tab", "#\ta"),
+	("hash-inner-tab", "# a\tb"),
+	("hash-no-text", "#"),
+	("hash-blank-only", "# \t "),
+	("hash-many", "### a"),
+	("hash-bang", "#!/usr/bin/env jsonnet"),
+	("hash-long", "# lorem_ipsum_dolor_sit_amet_consectetur_adipiscing_elit_sed_do_eiusmod_tempor_incididunt_ut_labore_et_dolore_magna"),
 ];
 
 /// text blocks: tabs, blank and whitespace-only lines, chomping, terminator indentation
@@ -780,82 +856,6 @@ pub struct Spanning {
 	pub label: String,
 	pub depth: usize,
 	pub src: String,
-	/// Some(reason): generated, but NOT run — the token falls under a defect of the unchanged
-	/// formatter that is reported separately (see `comment_exclusion`); engines count it
-	pub skip: Option<&'static str>,
-}
-
-/// Model of what comments.rs (`format_comments`, MultiLineComment) prints for a `/* */` comment at
-/// indentation 0: trailing blanks trimmed, leading / trailing blank lines dropped, the common
-/// white-space-or-`*` prefix of the lines removed, doc comments (`/**`) given a ` * ` gutter.
-/// None = the comment is not printed at all.  Only used to DESCRIBE the comments the family leaves out.
-fn comment_reprint(c: &str) -> Option<String> {
-	fn prefix(a: &str, b: &str) -> usize {
-		a.bytes().zip(b.bytes()).take_while(|(a, b)| a == b && (a.is_ascii_whitespace() || *a == b'*')).count()
-	}
-	let mut text = c.strip_prefix("/*")?.strip_suffix("*/")?;
-	let doc = text.starts_with('*');
-	if doc {
-		text = &text[1..];
-	}
-	let mut lines: Vec<String> = text.split('\n').map(|l| l.trim_end().to_string()).collect();
-	let lead = lines.iter().take_while(|l| l.is_empty()).count();
-	let immediate = lead == 0;
-	lines.drain(..lead);
-	while lines.last().is_some_and(String::is_empty) {
-		lines.pop();
-	}
-	if lines.is_empty() {
-		return None;
-	}
-	if lines.len() == 1 && !doc {
-		return Some(format!("/* {} */", lines[0].trim()));
-	}
-	let first = if immediate && lines.len() > 1 { lines[1].clone() } else { lines[0].clone() };
-	let mut pad = first[..prefix(&first, &first)].to_string();
-	for l in lines.iter().skip(if immediate { 2 } else { 1 }).filter(|l| !l.is_empty()) {
-		pad.truncate(prefix(&pad, l));
-	}
-	for l in lines.iter_mut().skip(usize::from(immediate)).filter(|l| !l.is_empty()) {
-		*l = l.strip_prefix(pad.as_str())?.to_string();
-	}
-	let mut out = String::from(if doc { "/**\n" } else { "/*\n" });
-	for l in lines {
-		if doc {
-			out.push_str(" *");
-		}
-		if !l.is_empty() {
-			if doc {
-				out.push(' ');
-			}
-			let body = l.trim_start_matches('\t');
-			for _ in 0..l.len() - body.len() {
-				out.push_str(if doc { "    " } else { "\t" });
-			}
-			out.push_str(body);
-		}
-		out.push('\n');
-	}
-	out.push_str(if doc { " */" } else { "*/" });
-	Some(out)
-}
-
-/// Comments the family generates but does not run, because the UNCHANGED formatter mishandles them
-/// (genuine defects found by this family, reported separately; none of them needs a tab):
-///  * "dropped": a `/* */` comment without any text (`/**/`, `/* */`, `/*\n\n*/`) is not printed at all
-///    (C19: a comment is lost);
-///  * "reindent-not-settled": the re-indentation step is not a projection on this comment — printing
-///    the printed comment again changes it (C20).  Witnesses: `/**\n * a\n *\n * b\n */` (a doc
-///    comment with an empty gutter line: every pass inserts one more blank behind the gutter, never
-///    settles), `/*\n * a\n *\n * b\n */` (first pass strips ` *`, second pass the blank),
-///    `/*  a\n\n  b*/` (text directly behind `/*` and a blank second line: un-indented by the second
-///    pass only), `/**\n *\ta\n * b\tc\n */` (gutter followed by a tab on one line, a blank on the next).
-pub fn comment_exclusion(c: &str) -> Option<&'static str> {
-	let Some(once) = comment_reprint(c) else { return Some("dropped") };
-	match comment_reprint(&once) {
-		Some(twice) if twice == once => None,
-		_ => Some("reindent-not-settled"),
-	}
 }
 
 /// kinds of positions a token can be put into
@@ -956,8 +956,11 @@ fn span_program(rng: &mut Rng, depth: usize, hole: Hole, token: &str, broken: bo
 }
 
 /// a program whose spanning token is a COMMENT: a small valid program with the comment at one of
-/// its token boundaries (before/behind values, commas, brackets; on its own line or inline)
+/// its token boundaries (before/behind values, commas, brackets; on its own line or inline; glued
+/// to its neighbours; last thing in the file with and without a final line end).  A `//` / `#`
+/// comment is always followed by a line end unless it ends the file.
 fn span_comment_program(rng: &mut Rng, depth: usize, comment: &str) -> String {
+	let line_comment = !comment.starts_with("/*");
 	let value = *rng.pick(&["1", "'s'", "null", "[ ]", "{ }"]);
 	let (mut toks, post, _) = span_context(rng, depth, Hole::Value);
 	let lo = toks.len();
@@ -970,18 +973,90 @@ fn span_comment_program(rng: &mut Rng, depth: usize, comment: &str) -> String {
 		if i == at {
 			s.push_str(*rng.pick(&["", " ", "\n", "\n\n", "\n  ", "\n\t"]));
 			s.push_str(comment);
-			s.push_str(*rng.pick(&["", " ", "\n", "\n\n", " \n"]));
+			if line_comment {
+				s.push_str(*rng.pick(&["\n", "\n", "\n\n", "\r\n", "\n  ", "\n\t"]));
+			} else {
+				s.push_str(*rng.pick(&["", " ", "\n", "\n\n", " \n"]));
+			}
 		} else if i > 0 {
 			s.push(' ');
 		}
 		s.push_str(t);
 	}
 	if at == toks.len() {
-		s.push_str(*rng.pick(&[" ", "\n", "\n\n"]));
+		s.push_str(*rng.pick(&["", " ", "\n", "\n\n"]));
 		s.push_str(comment);
-		s.push_str(*rng.pick(&["", "\n"]));
+		s.push_str(*rng.pick(&["", "", "\n", "\r\n"]));
 	}
 	s
+}
+
+/// Hosts of the `glued` comment programs: between them every bracket kind and every separator
+/// (`( ) [ ] { } , ; : :: ::: = . for in if`), each a complete program that evaluates without error
+const GLUE_HOSTS: [&str; 9] = [
+	"{ a : 1 , b :: [ 1 , 2 ] , c ::: ( 3 ) }",
+	"local f ( x , y = 2 ) = x + y ; f ( 1 , y = 3 )",
+	"local a = 1 , b = [ a ] ; b",
+	"[ x for x in [ 1 , 2 ] if x > 1 ]",
+	"{ [ k ] : 1 for k in [ 'a' ] }",
+	"{ a : { b : [ 1 ] } } . a [ 'b' ] [ : 1 ]",
+	"{ local v = 1 , assert v == 1 : 'm' , a +: v }",
+	"( function ( a , b = [ ] ) a ) ( 1 )",
+	"if true then [ ] else { }",
+];
+/// the comments of the `glued` programs
+const GLUE_COMMENTS: [(&str, &str); 7] = [
+	("block", "/*c*/"),
+	("block-lines", "/* c\n   d */"),
+	("block-gutter", "/*\n * c\n *\n * d\n */"),
+	("block-no-text", "/**/"),
+	("doc-one-line", "/** c */"),
+	("slash", "//c"),
+	("hash", "#c \t"),
+];
+const GLUE_TOKENS: [&str; 17] = ["(", ")", "[", "]", "{", "}", ",", ";", ":", "::", ":::", "+:", "=", ".", "for", "in", "if"];
+
+/// `glued`: a comment directly behind and directly before every bracket and separator of the hosts,
+/// without any blank in between (a line comment is followed by its line end)
+pub fn glued_comment_programs() -> Vec<Spanning> {
+	let mut out = Vec::new();
+	for host in GLUE_HOSTS {
+		let toks: Vec<&str> = host.split(' ').collect();
+		for at in 0..=toks.len() {
+			let prev = if at > 0 { toks[at - 1] } else { "" };
+			let next = if at < toks.len() { toks[at] } else { "" };
+			let (near, side) = if GLUE_TOKENS.contains(&prev) {
+				(prev, "behind")
+			} else if GLUE_TOKENS.contains(&next) {
+				(next, "before")
+			} else if at == 0 {
+				("file-start", "at")
+			} else if at == toks.len() {
+				("file-end", "at")
+			} else {
+				continue;
+			};
+			for (shape, comment) in GLUE_COMMENTS {
+				let mut src = String::new();
+				for (i, t) in toks.iter().enumerate() {
+					if i == at {
+						src.push_str(comment);
+						if !comment.starts_with("/*") {
+							src.push('\n');
+						}
+					} else if i > 0 {
+						src.push(' ');
+					}
+					src.push_str(t);
+				}
+				if at == toks.len() {
+					src.push_str(comment);
+				}
+				out.push(Spanning { label: format!("glued-{shape}.{side}-{near}"), depth: 0, src });
+			}
+		}
+	}
+	out
 }
 
 /// random string body out of the pieces the enumerated shapes are made of
@@ -997,20 +1072,43 @@ fn span_random_body(rng: &mut Rng) -> String {
 	s
 }
 fn span_random_comment(rng: &mut Rng) -> String {
-	let doc = rng.chance(1, 5);
+	let doc = rng.chance(1, 4);
 	let mut s = String::from(if doc { "/**" } else { "/*" });
-	let n = 1 + rng.below(5);
+	let n = rng.below(6);
 	// never text glued to the `**` of a doc comment (`/**- h`): the formatter prints it as ` * - h`,
 	// which is the same comment, but C19's comment projection compares white-space separated words
 	// and would see `*-` become `-`
-	s.push_str(*rng.pick(if doc { &[" ", " ", "\n", "\t", " a\tb\n"] } else { &["", " ", "\n", "\t", " a\tb\n"] }));
+	s.push_str(*rng.pick(if doc {
+		&[" ", " ", "\n", "\t", " a\tb\n", "  a", " * x", "\r\n", "\n\n", " \n", "* a"]
+	} else {
+		&["", " ", "\n", "\t", " a\tb\n", "  a", " * x", "\r\n", "\n\n", " \n", "a"]
+	}));
 	for _ in 0..n {
-		s.push_str(*rng.pick(&["", " ", "  ", "\t", "\t\t", " \t", "    ", " * ", " *\t", "\t * "]));
-		s.push_str(*rng.pick(&["a", "b c", "d\te", "", "", "f  ", "g\t", "- h"]));
-		s.push_str(*rng.pick(&["\n", "\n", "\n", "\n\n", "\r\n"]));
+		s.push_str(*rng.pick(&[
+			"", " ", "  ", "\t", "\t\t", " \t", "    ", " * ", " *\t", "\t * ", " *", " **", " * * ", "*", " *  ", "   * ", " * \t",
+		]));
+		s.push_str(*rng.pick(&["a", "b c", "d\te", "", "", "f  ", "g\t", "- h", "*", "***", "* x", "x*", "/* y", "// z", "é"]));
+		s.push_str(*rng.pick(&["\n", "\n", "\n", "\n\n", "\r\n", " \n"]));
 	}
-	s.push_str(*rng.pick(&["", " ", "  ", "\t", "   "]));
+	s.push_str(*rng.pick(&["", " ", "  ", "\t", "   ", " *", "\n *", "**"]));
 	s.push_str("*/");
+	// the pieces must not close the comment early (`*` + `/* y`), nor leave `/*/`
+	let mut body = s[2..s.len() - 2].replace("*/", "* /");
+	if body == "/" {
+		return "/* / */".into();
+	}
+	// nor glue text to the stars behind `/*` (see above)
+	let stars = body.len() - body.trim_start_matches('*').len();
+	if stars > 0 && body[stars..].starts_with(|c: char| !c.is_whitespace()) {
+		body.insert(stars, ' ');
+	}
+	format!("/*{body}*/")
+}
+fn span_random_line_comment(rng: &mut Rng) -> String {
+	let mut s = String::from(*rng.pick(&["//", "//", "#", "#", "///", "##"]));
+	for _ in 0..rng.below(5) {
+		s.push_str(*rng.pick(&["", " ", "  ", "\t", " \t", "a", "b c", "d\te", "é", "//", "#", "/*", "*/", "'", "\"", "|||", "{"]));
+	}
 	s
 }
 fn span_random_block(rng: &mut Rng) -> String {
@@ -1060,6 +1158,37 @@ fn quote_body(q: usize, body: &str) -> String {
 	format!("{open}{body}{close}")
 }
 
+/// Bounded-exhaustive: EVERY block comment text over the alphabet blank, tab, line break, `*`, `a` up
+/// to `max_len` characters (gutters, gutter-only lines, doc comments, empty comments, text directly
+/// behind `/*`, differing indentation all occur), in one of three places by turns: before the program,
+/// on lines of its own inside an object, behind an array element.  Text glued to the stars behind
+/// `/*` (`/**a`) is left out: printed as ` * a` it is the same comment, but not the same words for
+/// C19's projection.
+pub fn exhaustive_comment_programs(max_len: usize) -> Vec<Spanning> {
+	const ALPHABET: [char; 5] = [' ', '\t', '\n', '*', 'a'];
+	let mut out = Vec::new();
+	let mut bodies: Vec<String> = vec![String::new()];
+	let mut k = 0usize;
+	for len in 0..=max_len {
+		for body in &bodies {
+			if body.trim_start_matches('*').starts_with('a') && body.starts_with('*') {
+				continue;
+			}
+			k += 1;
+			let src = match k % 3 {
+				0 => format!("/*{body}*/ 1"),
+				1 => format!("{{ a : 1 ,\n  /*{body}*/\n  b : 2 }}"),
+				_ => format!("[ 1 , /*{body}*/ 2 ]"),
+			};
+			out.push(Spanning { label: format!("comment-exhaustive.len{len}"), depth: k % 3, src });
+		}
+		if len < max_len {
+			bodies = bodies.iter().flat_map(|b| ALPHABET.iter().map(move |c| format!("{b}{c}"))).collect();
+		}
+	}
+	out
+}
+
 /// The family: every enumerated token shape at every depth 0..=3 (random wrapper chain, once on one
 /// line and once with source line breaks), plus `n_random` programs around random tokens.
 pub fn spanning_programs(rng: &mut Rng, n_random: usize) -> Vec<Spanning> {
@@ -1071,7 +1200,7 @@ pub fn spanning_programs(rng: &mut Rng, n_random: usize) -> Vec<Spanning> {
 			for depth in 0..=3usize {
 				k += 1;
 				let (src, _) = span_program(rng, depth, Hole::Str, &token, k % 2 == 0);
-				out.push(Spanning { label: format!("str-{}.{shape}", SPAN_QUOTES[q].0), depth, src, skip: None });
+				out.push(Spanning { label: format!("str-{}.{shape}", SPAN_QUOTES[q].0), depth, src });
 			}
 		}
 	}
@@ -1079,21 +1208,30 @@ pub fn spanning_programs(rng: &mut Rng, n_random: usize) -> Vec<Spanning> {
 		for depth in 0..=3usize {
 			k += 1;
 			let (src, _) = span_program(rng, depth, Hole::Value, block, k % 2 == 0);
-			out.push(Spanning { label: format!("block.{shape}"), depth, src, skip: None });
+			out.push(Spanning { label: format!("block.{shape}"), depth, src });
 		}
 	}
 	for (shape, comment) in SPAN_COMMENTS {
 		for depth in 0..=3usize {
 			for _ in 0..2 {
 				let src = span_comment_program(rng, depth, comment);
-				out.push(Spanning { label: format!("comment.{shape}"), depth, src, skip: comment_exclusion(comment) });
+				out.push(Spanning { label: format!("comment.{shape}"), depth, src });
 			}
 		}
 	}
+	for (shape, comment) in SPAN_LINE_COMMENTS {
+		for depth in 0..=3usize {
+			for _ in 0..2 {
+				let src = span_comment_program(rng, depth, comment);
+				out.push(Spanning { label: format!("linecomment.{shape}"), depth, src });
+			}
+		}
+	}
+	out.extend(glued_comment_programs());
 	for i in 0..n_random {
 		let depth = rng.below(4);
 		let broken = rng.chance(1, 2);
-		match i % 4 {
+		match i % 5 {
 			0 | 1 => {
 				let q = rng.below(SPAN_QUOTES.len());
 				let mut token = quote_body(q, &span_random_body(rng));
@@ -1101,17 +1239,22 @@ pub fn spanning_programs(rng: &mut Rng, n_random: usize) -> Vec<Spanning> {
 					token = format!("{token} + {}", quote_body(rng.below(4), &span_random_body(rng)));
 				}
 				let (src, _) = span_program(rng, depth, if token.contains(" + ") { Hole::Value } else { Hole::Str }, &token, broken);
-				out.push(Spanning { label: format!("str-{}.random", SPAN_QUOTES[q].0), depth, src, skip: None });
+				out.push(Spanning { label: format!("str-{}.random", SPAN_QUOTES[q].0), depth, src });
 			}
 			2 => {
 				let token = span_random_block(rng);
 				let (src, _) = span_program(rng, depth, Hole::Value, &token, broken);
-				out.push(Spanning { label: "block.random".into(), depth, src, skip: None });
+				out.push(Spanning { label: "block.random".into(), depth, src });
 			}
-			_ => {
+			3 => {
 				let c = span_random_comment(rng);
 				let src = span_comment_program(rng, depth, &c);
-				out.push(Spanning { label: "comment.random".into(), depth, src, skip: comment_exclusion(&c) });
+				out.push(Spanning { label: "comment.random".into(), depth, src });
+			}
+			_ => {
+				let c = if rng.chance(1, 2) { span_random_line_comment(rng) } else { span_random_comment(rng) };
+				let src = span_comment_program(rng, depth, &c);
+				out.push(Spanning { label: format!("{}.random", if c.starts_with("/*") { "comment" } else { "linecomment" }), depth, src });
 			}
 		}
 	}
@@ -1557,16 +1700,17 @@ pub fn run(opts: &Opts) {
 		let mut srng = Rng::new(opts.seed ^ 0x5_BA11);
 		for sp in spanning_programs(&mut srng, if thorough { 3000 } else { 300 }) {
 			let kind = sp.label.split('.').next().unwrap_or("?").to_string();
-			if let Some(why) = sp.skip {
-				c.bump(&format!("span.{kind}.excluded-{why}"));
-				continue;
-			}
 			let mut valid = false;
 			for indent in [0u8, 2, 4] {
 				valid |= c.idem(&format!("span.{}.depth{}", sp.label, sp.depth), &sp.src, indent).is_some();
 			}
 			c.bump(&format!("span.{kind}.{}", if valid { "valid" } else { "rejected" }));
 			c.bump(&format!("span.depth{}", sp.depth));
+		}
+		// every short comment text, one indent setting each (by turns)
+		for (i, sp) in exhaustive_comment_programs(if thorough { 7 } else { 5 }).iter().enumerate() {
+			let valid = c.idem(&format!("span.{}", sp.label), &sp.src, [0u8, 2, 4][i / 3 % 3]).is_some();
+			c.bump(&format!("span.{}.{}", sp.label, if valid { "valid" } else { "rejected" }));
 		}
 	}
 
@@ -1624,7 +1768,7 @@ pub fn run(opts: &Opts) {
 	let n = c.w.n;
 	c.w.finish(
 		json!({"engine":"c20","cases":n,"hist":hist,
-			"rule":"format() guarded on boundary/bytes/token-soup/mutants/truncations (diagnostic-branch outcome vs Lean model); format∘format = format on generated valid programs × indent {tabs,2,4}, incl. the span stream (every enumerated shape of a string literal / block comment / text block that spans lines or contains tabs, CR, trailing blanks, at nesting depth 0..=3); jrsonnet-fmt binary vs FmtMain.run"}),
+			"rule":"format() guarded on boundary/bytes/token-soup/mutants/truncations (diagnostic-branch outcome vs Lean model); format∘format = format on generated valid programs × indent {tabs,2,4}, incl. the span stream (every enumerated shape of a string literal / block comment / line comment / text block that spans lines or contains tabs, CR, trailing blanks, at nesting depth 0..=3; comments glued behind and before every bracket kind and separator; every block comment text up to 5 (thorough: 7) characters over blank/tab/line break/`*`/`a`; no shape excluded); jrsonnet-fmt binary vs FmtMain.run"}),
 		&opts.out,
 	);
 }
